@@ -12,8 +12,9 @@ def dataOp (args : List String) : String :=
   | ["run", ms, b, ss] =>
     match parseOptNat ms, ofHex b, parseBytesList ss with
     | some m, some buf0, some segs =>
-      match Data.run m buf0 segs with
-      | .ok r => s!"ok {toHexOrDash r.data} {toHexOrDash r.recvBuffer} {toHexOrDash r.unread.flatten}"
+      match Data.runLimited m buf0 segs with
+      | .ok ⟨some d, rb, un⟩ => s!"ok {toHexOrDash d} {toHexOrDash rb} {toHexOrDash un.flatten}"
+      | .ok ⟨none, rb, un⟩ => s!"toobig {toHexOrDash rb} {toHexOrDash un.flatten}"
       | .error .connectionLost => "err connectionLost"
       | .error .messageTooBig => "err messageTooBig"
       | .error .wouldBlock => "err wouldBlock"
